@@ -399,7 +399,7 @@ func gen(r *vf.Rand) c12Case {
 			}
 		default:
 			m.T = "www"
-			m.Realm = vf.Pick(r, []string{"", "myrealm", "two words", "q\"uote"})
+			m.Realm = vf.Pick(r, []string{"", "myrealm", "two words", "q\"uote", "x"})
 		}
 
 		c.Sc = scenario{T: "handled", M: m}
@@ -535,6 +535,7 @@ type obs struct {
 	Proxy    stacks.Result `json:"proxy"`
 	Envoy    stacks.Result `json:"envoy"`
 	Or       oracle        `json:"oracle"`
+	Up       [][2]string   `json:"upstream_headers"` // handed to ctx.AddHeaderForUpstream by the mechanism
 }
 
 func httpOpts(r stacks.Respond) []herr.Option {
@@ -651,7 +652,18 @@ func mechanismFor(m *mech) errorhandlers.ErrorHandler {
 	return eh
 }
 
-func executorFor(c c12Case, err error) rule.Executor {
+// recCtx records what a mechanism hands to AddHeaderForUpstream (and passes it on)
+type recCtx struct {
+	heimdall.Context
+	rec *[][2]string
+}
+
+func (r recCtx) AddHeaderForUpstream(name, value string) {
+	*r.rec = append(*r.rec, [2]string{name, value})
+	r.Context.AddHeaderForUpstream(name, value)
+}
+
+func executorFor(c c12Case, err error, rec *[][2]string) rule.Executor {
 	switch c.Sc.T {
 	case "error":
 		return stacks.ExecFunc(func(heimdall.Context) (rule.Backend, error) { return nil, err })
@@ -659,7 +671,9 @@ func executorFor(c c12Case, err error) rule.Executor {
 		eh := mechanismFor(c.Sc.M)
 
 		// what ruleImpl.Execute does with a failed stage: return nil, r.eh.Execute(ctx, err)
-		return stacks.ExecFunc(func(ctx heimdall.Context) (rule.Backend, error) { return nil, eh.Execute(ctx, err) })
+		return stacks.ExecFunc(func(ctx heimdall.Context) (rule.Backend, error) {
+			return nil, eh.Execute(recCtx{Context: ctx, rec: rec}, err)
+		})
 	default:
 		return stacks.ExecFunc(func(heimdall.Context) (rule.Backend, error) {
 			if c.Sc.PanicErr {
@@ -689,13 +703,23 @@ func run(c c12Case) obs {
 	o.HTTP = translateHTTP(c, err)
 	o.GRPC = translateGRPC(c, err)
 
-	exec := executorFor(c, err)
+	var rec [][2]string
+
+	exec := executorFor(c, err, &rec)
 	o.Decision = stacks.NewDecision(c.R, exec).Do(c.Accept)
+	o.Up = append([][2]string{}, rec...)
+	rec = nil
 	o.Proxy = stacks.NewProxy(c.R, exec).Do(c.Accept)
+	same := fmt.Sprint(rec) == fmt.Sprint(o.Up)
+	rec = nil
 
 	env := stacks.NewEnvoy(c.R, exec)
 	o.Envoy = env.Do(c.Accept)
 	env.Close()
+
+	if !same || fmt.Sprint(rec) != fmt.Sprint(o.Up) {
+		o.Up = append(o.Up, [2]string{"verif: differs between entry points", fmt.Sprint(rec)})
+	}
 
 	return o
 }
@@ -802,7 +826,8 @@ func coqCase(c c12Case, o obs) string {
 	}
 
 	return vf.CoqApp("mkcase", cfg, or, coqErr(c.E), sc, vf.CoqListOf(o.Is, vf.CoqBool), as,
-		coqHTTP(o.HTTP), coqGRPC(o.GRPC), coqHTTP(o.Decision), coqHTTP(o.Proxy), coqGRPC(o.Envoy))
+		coqHTTP(o.HTTP), coqGRPC(o.GRPC), coqHTTP(o.Decision), coqHTTP(o.Proxy), coqGRPC(o.Envoy),
+		vf.CoqListOf(o.Up, func(h [2]string) string { return vf.CoqPair(vf.CoqStr(h[0]), vf.CoqStr(h[1])) }))
 }
 
 func tags(c c12Case, o obs) []string {
